@@ -2,7 +2,7 @@
 import scopedom
 
 OBS = 'ObsC05'
-LABELS = {'quick': 'abort nested until'.split(), 'thorough': 'abort nested until'.split()}
+LABELS = {'quick': 'abort nested until supervisor'.split(), 'thorough': 'abort nested until supervisor'.split()}
 
 
 def run(check):
